@@ -353,6 +353,53 @@ func RunC13(c *core.Ctx) {
 		recs = append(recs, rec{"kind": "query", "entries": w.entries(), "q": q.rec(), "got": got, "dbg": "after the held task was released and Flush returned"})
 		w.close()
 	}
+	// a backlog of index updates longer than the index task queue: the indexer is held while one writer
+	// makes 300 changes (many to ids whose earlier change is still pending), then released
+	for h := 0; h < c.Pick(2, 12); h++ {
+		w, err := newC13World([]string{"", "pfx."}[h%2])
+		if err != nil {
+			break
+		}
+		atomic.StoreInt32(&w.hold, 1)
+		wrng := rand.New(rand.NewSource(c.Seed*131 + int64(h)))
+		done := make(chan struct{})
+		go func() {
+			defer close(done)
+			for i := 0; i < 300; i++ {
+				id, key, del := randMutation(w, wrng)
+				w.mutate(id, key, del, i)
+			}
+		}()
+		select {
+		case <-w.atGate:
+		case <-time.After(2 * time.Second):
+		}
+		select {
+		case <-done: // the writer was never held up
+		case <-time.After(40 * time.Millisecond):
+		}
+		atomic.StoreInt32(&w.hold, 0)
+		close(w.gate)
+		select {
+		case <-done:
+		case <-time.After(30 * time.Second):
+			c.Inconclusive("c13 backlog history %d: the writer did not finish", h)
+			w.close()
+			continue
+		}
+		w.qs.Flush()
+		ents := w.entries()
+		for k := 0; k < c.Pick(20, 60); k++ {
+			q := randQuery(rng)
+			got, err := w.query(q)
+			if err != nil {
+				c.Violate(core.Violation{Signature: map[string]string{"engine": "c13", "kind": "query-error"}, Text: fmt.Sprintf("query %+v failed: %v", q, err), Replay: q.rec()})
+				continue
+			}
+			recs = append(recs, rec{"kind": "query", "entries": ents, "q": q.rec(), "got": got, "dbg": fmt.Sprintf("backlog history %d: 300 changes while the indexer was held", h)})
+		}
+		w.close()
+	}
 	core.CheckRecords(c, "TraceIndex", "TraceIndex.cfg", recs, nil, func(i int, r interface{}, inv string) {
 		m := r.(rec)
 		c.Violate(core.Violation{Signature: map[string]string{"engine": "c13", "kind": classifyC13(m)},
